@@ -368,6 +368,12 @@ func (b *shimBook) items(rng *rand.Rand, plan replayPlan) (items []map[string]in
 				early["node"] = ""
 				early["kind"] = "ask"
 				early["early"] = true
+				// in a share of the cases the pod had another size when the shim sent the ask: the bind that follows
+				// carries the size the shim holds now (resource change of a pending ask + transition in one update)
+				if rng.Intn(100) < 45 {
+					early["res"] = encRes(otherSize(rng, decRes(norm(map[string]interface{}{"r": a.op["res"]})["r"])))
+					early["resized"] = true
+				}
 				asks = append(asks, early)
 				op["kind"] = "bind"
 			}
@@ -503,6 +509,41 @@ func (b *shimBook) items(rng *rand.Rand, plan replayPlan) (items []map[string]in
 	return items, omitted
 }
 
+// otherSize: a size different from r: larger, smaller (never below 1 on cpu), or with another set of types
+func otherSize(rng *rand.Rand, r *resources.Resource) *resources.Resource {
+	nr := r.Clone()
+	switch rng.Intn(4) {
+	case 0:
+		nr.Resources["cpu"] += resources.Quantity(1 + rng.Intn(3))
+	case 1:
+		changed := false
+		for _, t := range []string{"cpu", "mem"} {
+			if nr.Resources[t] > 1 {
+				nr.Resources[t]--
+				changed = true
+			}
+		}
+		if !changed {
+			nr.Resources["cpu"] += 2
+		}
+	case 2:
+		// another type set: mem appears or disappears
+		if _, ok := nr.Resources["mem"]; ok && nr.Resources["cpu"] > 0 {
+			delete(nr.Resources, "mem")
+		} else {
+			nr.Resources["mem"] = resources.Quantity(1 + rng.Intn(4))
+		}
+	default:
+		nr.Resources["cpu"] += resources.Quantity(1 + rng.Intn(2))
+		if nr.Resources["mem"] > 1 {
+			nr.Resources["mem"]--
+		} else {
+			nr.Resources["mem"] = 2
+		}
+	}
+	return nr
+}
+
 // askBeforeBind swaps a "bind" item with the ask of the same key when the shuffle put it first
 func askBeforeBind(l []map[string]interface{}) {
 	pos := map[string]int{}
@@ -613,6 +654,7 @@ func recoverB(c *Ctx, d *coreDrv, rc *recoverCase, book *shimBook, dumpA interfa
 		delete(op, "kind")
 		delete(op, "forced")
 		delete(op, "early")
+		delete(op, "resized")
 		scratch := map[string]interface{}{}
 		func() {
 			defer func() {
@@ -713,6 +755,10 @@ func recoverStats(c *Ctx, dumpA interface{}, book *shimBook, items []map[string]
 		if it["kind"] == "bind" {
 			seen["ask-then-bound"] = true
 		}
+		if jsonBool(it["resized"]) {
+			seen["ask-then-bound-resized"] = true
+			c.stat("replay:bind-resized")
+		}
 	}
 	if nb > 0 {
 		seen["bound-allocations"] = true
@@ -805,6 +851,11 @@ func recoverPost(c *Ctx, d *coreDrv, book *shimBook, n int) {
 				a := s.asks[k]
 				node := s.pickFrom(nodes)
 				c.stat("post:rm-placement")
+				if c.chance(0.4) {
+					// … with another size than the ask the core holds: resource change of the pending ask and transition
+					c.stat("post:rm-placement-resized")
+					a.res = otherSize(c.rng, a.res)
+				}
 				emit(map[string]interface{}{"op": "alloc", "app": a.app, "key": k, "node": node, "res": encRes(a.res), "ph": a.ph, "tg": a.tg, "ctime": 1})
 				if d.s.part.GetApplication(a.app) != nil && d.s.part.GetApplication(a.app).GetAllocationAsk(k) != nil &&
 					d.s.part.GetApplication(a.app).GetAllocationAsk(k).IsAllocated() {
